@@ -889,6 +889,52 @@ static void elem_aliasing(Ctx& ctx) {
         }
 }
 
+// ------------------------------------------------------------------------------------------------ scalar compound forms, aliased
+// A complex SCALAR combined in place with one of its own components or with itself (z *= z.re, z /= z.im, z -= z): the parameter
+// is a reference to storage the operator is rewriting.  Reference: the non-compound operator on copies of the operands, bit for bit.
+static void scalar_aliasing(Ctx& ctx) {
+    for (int which = 0; which < 3; ++which) {   // 0: z op= z.re   1: z op= z.im   2: z op= z
+        if (!ctx.take("alias.scalar", P().kv("rhs", which == 0 ? "z.re" : (which == 1 ? "z.im" : "z")))) continue;
+        long changed = 0;
+        std::vector<cmplx_t> zs = VC;
+        for (double a : {2.0, -7.0, 0.25, 1e50})
+            for (double b : {3.0, -0.125, 5e-30}) zs.push_back({a, b});
+        for (const cmplx_t& z0 : zs)
+            for (int op = 0; op < 4; ++op) {
+                cmplx_t z = z0, e;
+                const real_t r0 = which == 0 ? z0.re : z0.im;
+                if (which < 2) {
+                    real_t& r = which == 0 ? z.re : z.im;
+                    switch (op) {
+                    case 0: z += r; e = z0 + r0; break;
+                    case 1: z -= r; e = z0 - r0; break;
+                    case 2: z *= r; e = z0 * r0; break;
+                    default: z /= r; e = z0 / r0;
+                    }
+                } else {
+                    const cmplx_t c0 = z0;
+                    switch (op) {
+                    case 0: z += z; e = z0 + c0; break;
+                    case 1: z -= z; e = z0 - c0; break;
+                    case 2: z *= z; e = z0 * c0; break;
+                    default: z /= z; e = z0 / c0;
+                    }
+                }
+                ++ctx.evaluations;
+                ++ctx.checks["alias.scalar"].evals;
+                const bool same = (std::memcmp(&z, &e, sizeof z) == 0) || ((z.re != z.re) && (e.re != e.re)) || ((z.im != z.im) && (e.im != e.im) && std::memcmp(&z.re, &e.re, sizeof(real_t)) == 0);
+                if (std::memcmp(&z, &z0, sizeof z) != 0) ++changed;
+                if (!same) {
+                    static const char* ON[] = {"+=", "-=", "*=", "/="};
+                    ctx.fail(fmt("cmplx_t %s", ON[op]).c_str(), fmt("z=(%.17g,%.17g): z %s %s gives (%.17g,%.17g)", z0.re, z0.im, ON[op], which == 0 ? "z.re" : (which == 1 ? "z.im" : "z"), z.re, z.im),
+                             fmt("(%.17g,%.17g) = the operator applied to the operands as they were before the call", e.re, e.im), P().kv("op", ON[op]).kv("re", z0.re).kv("im", z0.im));
+                    break;
+                }
+            }
+        if (changed) ctx.nontrivial();
+    }
+}
+
 // ------------------------------------------------------------------------------------------------ concatenation, selection
 template<class E>
 static std::vector<int> tags_of(const std::vector<int>& lens) {
@@ -2070,6 +2116,7 @@ int main(int argc, char** argv) {
     aliasing<arr_cmplx>(ctx, T);
     elem_aliasing<arr_real>(ctx);
     elem_aliasing<arr_cmplx>(ctx);
+    scalar_aliasing(ctx);
     concat_same<real_t>(ctx);
     concat_same<cmplx_t>(ctx);
     concat_mixed(ctx);
